@@ -79,6 +79,16 @@ CHECKS = {
   technique="runtime monitoring of the real `falco test` binary (nothing of falco linked): generated test files whose verdicts are known by construction are run -json and plain, with and without --coverage, in several orders and one test at a time; monitors compare reported verdicts with constructed ones, exit status with verdicts, summary counts with result entries, and runs with each other",
   text="Test files are generated from all 24 assert.* functions instantiated to hold and to fail (custom message, wrong argument types/counts, assertions as expressions), runtime errors, @skip/@tag/@suite/multi-@scope tests and side-effect/probe pairs over the testing.* state, against three fixed main VCLs. Every file is run by the built CLI: verdict and message class = constructed; exit status != 0 iff a test failed; passed+failed+skipped = result entries on the plain line and in the -json summary, assertion count = assertion calls executed; per-test (verdict, message, logs) identical across orders, subsets and with --coverage.",
   note="Constructed verdicts trust the catalogue of ~65 call scenarios over the fixed main programs; @tag expectations come from the decision table in docs/testing.md. Differences between runs are reported only if they reproduce. Three genuine defects are pinned by falco's own tests and stay open (JSON summary.passes is assertion-level; --coverage evaluates if-expression conditions twice)."),
+ "C07": dict(
+  category="exploration", design_ref="DESIGN.md §4 C07",
+  technique="runtime monitoring with three oracles over executions of the real interpreter under the debugger snapshot monitor: a reference trace differ (reference evaluator over the generator's own IR predicts the state before every executed statement), a metamorphic duality monitor for comparison operators, and an ACL monitor against a longest-prefix reference with permutation re-probing",
+  text="Typed core-language programs (locals of five types, headers, every assignment operator per type, comparisons, regex with capture groups, logical operators, concatenation, if/else-if/else, switch with regex cases/default/fallthrough, helper calls with by-value parameters, early return) are executed; the first statement after which a pooled variable, a header, a capture group, the control flow, a log line or the returned state differs from the reference is reported. Comparison pairs are evaluated in both orders and negated; generated ACLs are probed at every entry's boundaries and under permutations.",
+  note="The reference evaluator encodes the documented semantics for in-range operands only; constructs on which the documentation is silent (switch on a not-set control, not-set operands in a concatenation assigned to a header, not-set STRING arguments) are not generated (DESIGN.md section 7). One open finding: zero-length regex matches never match (third-party PCRE binding)."),
+ "C13": dict(
+  category="exploration", design_ref="DESIGN.md §4 C13",
+  technique="runtime monitoring, frame-rule checker over the debugger-snapshot event log: the whole variable pool is read before every executed statement and the set of entries that changed across a statement is compared with the write set the statement names (no reference semantics involved)",
+  text="Typed programs with unary minus and compound assignment on variables, values copied between variables and headers, and helper subroutines that mutate their by-value parameters, their own locals and run their own regex matches are executed; across set/unset/log/if/switch/call statements only the named target (plus re.group.* when a regex is evaluated, plus headers across a call) may change; caller locals and caller capture groups must survive a call; canaries (req.url, req.method, an untouched header) must never change.",
+  note="Only the driven subroutine's frame is judged (callee-internal transitions are covered through what the caller observes). Reading the pool through ProcessExpression is assumed side-effect free."),
 }
 
 NOT_APPLICABLE = {}
